@@ -40,7 +40,7 @@ class Unsupported(Exception):
 # ----------------------------------------------------------------------------------------------- clang
 def clang_ast(cfile, fn, extra_src=None):
     """JSON AST of every top-level declaration named `fn` in translation unit `cfile`."""
-    cmd = ["clang-14", "-fsyntax-only", "-std=gnu11", "-w", "-I", SRC, "-Xclang", "-ast-dump=json",
+    cmd = ["clang-14", "-fsyntax-only", "-std=gnu11", "-w", "-DNDEBUG", "-I", SRC, "-Xclang", "-ast-dump=json",
            "-Xclang", f"-ast-dump-filter={fn}", cfile]
     r = subprocess.run(cmd, capture_output=True, text=True)
     if r.returncode != 0:
@@ -302,9 +302,18 @@ class Fn:
             buf, off = base.ptr
             if buf in self.tr_write_names(env):
                 raise Unsupported(f"read of write buffer {buf}")
-            i = self.as_nat(idx)
-            pos = i if off == 0 else f"{off} + {i}"
-            return V(f"({buf} ({pos}))" if not pos.isdigit() else f"({buf} {pos})", ty)
+            ci = const_int(idx.s)
+            if ci is not None:
+                if off + ci < 0:
+                    raise Unsupported("read before the start of a buffer")
+                pos = str(off + ci)
+            else:
+                i = self.as_nat(idx)
+                pos = i if off == 0 else f"{off} + {i}"
+            rd = f"({buf} ({pos}))" if not pos.isdigit() else f"({buf} {pos})"
+            if ty.kind == "i":          # e.g. ((int8_t *)p)[0]: the byte reinterpreted as signed
+                return V(f"(sx {ty.width} {rd})", ty)
+            return V(rd, ty)
         if k == "UnaryOperator":
             op = n["opcode"]
             if op == "&":
@@ -318,13 +327,20 @@ class Fn:
             if op == "*":
                 if v.ptr is not None:
                     buf, off = v.ptr
-                    return V(f"({buf} {off})", ty)
+                    if buf in self.tr_write_names(env):
+                        raise Unsupported(f"read of write buffer {buf}")
+                    rd = f"({buf} {off})"
+                    return V(f"(sx {ty.width} {rd})" if ty.kind == "i" else rd, ty)
                 raise Unsupported("dereference")
             if op == "!":
                 return V(f"¬ {self.nz(v)}", Ty("i", 32), prop=True)
             if op == "-":
                 if ty.kind == "i":
-                    return V(f"(-{self.conv(v, ty).s})", ty)
+                    cv = self.conv(v, ty)
+                    m = re.fullmatch(r"\((\d+) : Int\)", cv.s)
+                    if m:
+                        return V(f"(-{m.group(1)} : Int)", ty)
+                    return V(f"(-{cv.s})", ty)
                 return V(f"(({P(ty.width)} - {self.conv(v, ty).s}) % {P(ty.width)})", ty)
             if op == "~":
                 if ty.kind == "u":
@@ -350,11 +366,14 @@ class Fn:
                 sym = {"<": "<", "<=": "≤", ">": ">", ">=": "≥", "==": "=", "!=": "≠"}[op]
                 return V(f"({a.s} {sym} {b.s})", Ty("i", 32), prop=True)
             if a.ptr is not None and op in "+-" and b.ptr is None:
-                m = re.fullmatch(r"\(?(\d+)\)?", b.s.replace(" : Int", ""))
-                if not m or op == "-":
+                ci = const_int(b.s)
+                if ci is None:
                     raise Unsupported("pointer arithmetic with a non-constant offset")
                 buf, off = a.ptr
-                return V("", a.ty, ptr=(buf, off + int(m.group(1))))
+                noff = off + ci if op == "+" else off - ci
+                if noff < 0:
+                    raise Unsupported("pointer before the start of a buffer")
+                return V("", a.ty, ptr=(buf, noff))
             if a.prop:
                 a = self.conv(a, ty)
             if b.prop:
@@ -388,7 +407,39 @@ class Fn:
             callee = self.tr.pure_callee(self.cfile, cn)
             if callee is None:
                 raise Unsupported(f"call to {cn} inside an expression")
-            return V(f"({callee.lean_name} {' '.join(self.conv(a, parse_type(p['type'])).s for a, p in zip(args, callee.params))})", ty)
+            if callee.write_bufs or callee.struct_fields:
+                raise Unsupported(f"call to {cn} (writes a buffer / takes a struct) inside an expression")
+            texts, outs = [], []
+            for a, prm in zip(args, callee.params):
+                nm, pty = prm["name"], parse_type(prm["type"])
+                if nm in callee.read_bufs:
+                    if a.ptr is None:
+                        raise Unsupported("buffer argument that is not a parameter buffer")
+                    buf, off = a.ptr
+                    texts.append(buf if off == 0 else f"(fun i => {buf} ({off} + i))")
+                elif nm in callee.out_params:
+                    if a.addr_of is None:
+                        raise Unsupported("out-parameter argument that is not &local")
+                    outs.append(a.addr_of)
+                elif pty.kind == "ptr":
+                    raise Unsupported("pointer argument of unknown role")
+                else:
+                    texts.append(self.conv(a, pty).s)
+            call = f"({callee.lean_name} {' '.join(texts)})" if texts else f"{callee.lean_name}"
+            ncomp = (1 if callee.ret.kind != "void" else 0) + len(callee.out_params)
+
+            def proj(k):
+                if ncomp == 1:
+                    return call
+                return call + ".2" * k + ("" if k == ncomp - 1 else ".1")
+
+            base = 1 if callee.ret.kind != "void" else 0
+            for j, local in enumerate(outs):          # the callee's stores become the locals' new values
+                cur = env.vars[local]
+                env.vars[local] = V(f"(({proj(base + j)}).getD {cur.s})", cur.ty)
+            if callee.ret.kind == "void":
+                return V("()", Ty("void"))
+            return V(proj(0), callee.ret)
         raise Unsupported(f"expression kind {k}")
 
     def tr_write_names(self, env):
@@ -406,6 +457,12 @@ class Fn:
         if op in ("<<", ">>"):
             a = self.conv(a, ty)
             kk = self.as_nat(b)
+            ca = const_int(a.s)
+            if ca is not None and kk.isdigit() and ca >= 0:        # fold shifts of literals
+                val = (ca << int(kk)) if op == "<<" else (ca >> int(kk))
+                if ty.kind == "u":
+                    return V(str(val % (1 << w)), ty)
+                return V(f"({val} : Int)", ty)
             if ty.kind == "u":
                 return V(f"({a.s} * 2 ^ {kk} % {P(w)})" if op == "<<" else f"({a.s} / 2 ^ {kk})", ty)
             return V(f"({a.s} * 2 ^ {kk})" if op == "<<" else f"({a.s} / 2 ^ {kk})", ty)
@@ -435,6 +492,9 @@ class Fn:
             if ma and mb and op in "+-*":               # fold arithmetic on literals
                 x, y = int(ma.group(1)), int(mb.group(1))
                 return V(f"({x + y if op == '+' else x - y if op == '-' else x * y} : Int)", ty)
+            if ma and mb and op in "&|^" and int(ma.group(1)) >= 0 and int(mb.group(1)) >= 0:
+                x, y = int(ma.group(1)), int(mb.group(1))
+                return V(f"({x & y if op == '&' else x | y if op == '|' else x ^ y} : Int)", ty)
             if op in "+-*":
                 return V(f"({a.s} {op} {b.s})", ty)
             if op == "&":
@@ -517,6 +577,13 @@ class Fn:
                 if d["kind"] != "VarDecl":
                     continue
                 ty = parse_type(d["type"])
+                if ty.kind == "ptr":
+                    init = [c for c in d.get("inner", []) if "kind" in c and c["kind"].endswith(("Expr", "Literal", "Operator"))]
+                    v = self.expr(init[0], env) if init else None
+                    if v is None or v.ptr is None:
+                        raise Unsupported("local pointer that is not derived from a parameter buffer")
+                    env.vars[d["name"]] = V("", ty, ptr=v.ptr)
+                    continue
                 if ty.kind not in "ui":
                     raise Unsupported(f"local of type {d['type']['qualType']}")
                 init = [c for c in d.get("inner", []) if "kind" in c and c["kind"].endswith(("Expr", "Literal", "Operator"))]
@@ -530,9 +597,39 @@ class Fn:
             return out + self.block(rest, env, ind)
         if k == "BinaryOperator" and s.get("opcode") == "=":
             return self.assign(inner[0], self.expr(inner[1], env), env, ind) + self.block(rest, env, ind)
+        if k == "UnaryOperator" and s.get("opcode") in ("++", "--"):
+            tgt = inner[0]
+            while tgt["kind"] == "ParenExpr":
+                tgt = tgt["inner"][0]
+            if tgt["kind"] != "DeclRefExpr":
+                raise Unsupported("++/-- of a non-variable")
+            cur = self.expr(tgt, env)
+            d = 1 if s["opcode"] == "++" else -1
+            if cur.ptr is not None:
+                buf, off = cur.ptr
+                if off + d < 0:
+                    raise Unsupported("pointer before the start of a buffer")
+                env.vars[tgt["referencedDecl"]["name"]] = V("", cur.ty, ptr=(buf, off + d))
+                return self.block(rest, env, ind)
+            one = self.lit("1", cur.ty)
+            val = self.arith("+" if d == 1 else "-", cur, one, cur.ty)
+            return self.assign(tgt, val, env, ind) + self.block(rest, env, ind)
         if k == "CompoundAssignOperator":
             op = s["opcode"][:-1]
             cur = self.expr(inner[0], env)
+            if cur.ptr is not None:
+                ci = const_int(self.expr(inner[1], env).s)
+                if ci is None or op not in "+-":
+                    raise Unsupported("pointer update with a non-constant offset")
+                buf, off = cur.ptr
+                noff = off + ci if op == "+" else off - ci
+                if noff < 0:
+                    raise Unsupported("pointer before the start of a buffer")
+                tgt = inner[0]
+                while tgt["kind"] == "ParenExpr":
+                    tgt = tgt["inner"][0]
+                env.vars[tgt["referencedDecl"]["name"]] = V("", cur.ty, ptr=(buf, noff))
+                return self.block(rest, env, ind)
             ctype = parse_type(s["computeResultType"]) if "computeResultType" in s else cur.ty
             val = self.arith(op, cur, self.expr(inner[1], env), ctype)
             return self.assign(inner[0], val, env, ind) + self.block(rest, env, ind)
@@ -589,6 +686,11 @@ class Fn:
         if lhs["kind"] == "DeclRefExpr":
             nm = lhs["referencedDecl"]["name"]
             ty = parse_type(lhs["type"])
+            if ty.kind == "ptr":
+                if val.ptr is None:
+                    raise Unsupported("pointer assigned from a non-buffer")
+                env.vars[nm] = V("", ty, ptr=val.ptr)
+                return ""
             v = self.conv(val, ty)
             new = env.fresh(nm)
             env.vars[nm] = V(new, ty)
@@ -701,6 +803,16 @@ class Fn:
         return f"{doc}\ndef {self.lean_name} {' '.join(params)} : {rty} :=\n{body}\n"
 
 
+def const_int(text):
+    m = re.fullmatch(r"\(*(-?)\(*(\d+)(?: : Int)?\)*", text.replace(" ", "").replace(":Int", " : Int"))
+    if m:
+        return -int(m.group(2)) if m.group(1) else int(m.group(2))
+    m = re.fullmatch(r"\(-\((\d+) : Int\)\)", text)
+    if m:
+        return -int(m.group(1))
+    return None
+
+
 def callee_name(call):
     c = call["inner"][0]
     while c["kind"] in ("ImplicitCastExpr", "ParenExpr"):
@@ -766,6 +878,10 @@ TARGETS = {
         ("varintTagged.c", "varintTaggedPut64", "taggedPut64"),
         ("varintTagged.c", "varintTaggedPut64FixedWidth", "taggedPut64FixedWidth"),
         ("varintTagged.c", "varintTaggedGet", "taggedGet"),
+    ],
+    "CChained": [
+        ("varintChained.c", "varintChainedGetVarint", "chainedGetVarint"),
+        ("varintChained.c", "varintChainedGetVarint32", "chainedGetVarint32"),
     ],
     "CSizes": [
         ("import", "CTagged", "varintTagged.c:varintTaggedLen:taggedLen"),
